@@ -114,6 +114,9 @@ func (h UrlEncodedForm) parseJson(bodyString string) (*graphql.RawParams, error)
 	if err != nil {
 		return nil, err
 	}
+	if params == nil {
+		return nil, errNullBody
+	}
 
 	return params, nil
 }
